@@ -382,8 +382,8 @@ theorem C07_position_startpos (hL : LegalLink) {ops : EngineOps} (hstr : ops.str
   have := h5 (by rw [hp0]; exact Int.le_refl 0) (by rw [hp0]; omega)
   rw [this, hp0]; omega
 
-/-- **C07 for `position fen <FEN> moves …`.** `f` is a FEN text the loader accepts as `p`, with the side not
-    to move not in check (the "legal position" precondition). Further hypotheses on the TEXT, needed because
+/-- **C07 for `position fen <FEN> moves …`.** `f` is a FEN text the loader accepts as `p` (then the side not
+    to move is not in check, `C08.fen_oppSafe` — formerly a hypothesis here). Hypotheses on the TEXT, needed because
     `doPosition` cuts the line at the first occurrence of the word `moves` and trims blanks: `f` contains no
     letter `m` (no piece, side, castling or square letter is `m`; the half-move field, which the loader ignores,
     could contain one), and `f` starts and ends with a non-blank ASCII character (true of every accepted text,
@@ -391,7 +391,7 @@ theorem C07_position_startpos (hL : LegalLink) {ops : EngineOps} (hstr : ops.str
     well-formed position denoting exactly the position the rules define. -/
 theorem C07_position_fen (hL : LegalLink) {ops : EngineOps} (hstr : ops.str = goStrEnv)
     (hap : ops.applyMove = applyUciMove) (st : UciState) {f : Bytes} {p : Position}
-    (hfen : parseFen f = .ok (.ok p)) (hS : OppSafe p) (hm : 109 ∉ f) (hends : PosCmd.Ends f)
+    (hfen : parseFen f = .ok (.ok p)) (hm : 109 ∉ f) (hends : PosCmd.Ends f)
     {sms : List Spec.Move} (hne : sms ≠ []) {P' : Spec.Pos} (hplay : Spec.play (abs p) sms = some P') :
     ∃ q, uciStep ops st (fenLine f (sms.map Spec.moveText))
         = .ok (({ st with pos := some q } : UciState).clearKillers, []) ∧
@@ -404,7 +404,7 @@ theorem C07_position_fen (hL : LegalLink) {ops : EngineOps} (hstr : ops.str = go
     simp only [Gen.uFen_bytes, List.cons_append, List.nil_append, List.mem_cons, not_or]
     exact ⟨by decide, by decide, by decide, by decide, hm⟩
   obtain ⟨q, h1, h2, h3, h4, h5⟩ := position_line hL hstr hap st _ hm' (PosCmd.ends_fenHead hends) hhead
-    (C02.fen_inv hfen) hS hne hplay
+    (C02.fen_inv hfen) (C08.fen_oppSafe hfen) hne hplay
   refine ⟨q, h1, h2, h3, h4, fun hlt => h5 ?_ hlt⟩
   obtain ⟨_, _pl, _tu, _ca, _ep, _ha, _fu, _a1, _a2, _a3, _a4, _a5, _a6, _a7, _a8, _a9, _a10, _a11, _a12,
     n, _hat, hn1, _hn2, hply⟩ := C08.fen_faithful hfen
@@ -443,7 +443,7 @@ def demoFen : Bytes := FenSpec.strBytes "4k3/8/8/8/8/8/4P3/4K3 w - - 0 10"
 
 set_option maxRecDepth 100000 in
 /-- non-vacuity of `C07_position_fen`: `position fen 4k3/8/8/8/8/8/4P3/4K3 w - - 0 10 moves e2e4`; all hypotheses
-    hold (accepted, opponent not in check, no letter `m`, no blank at either end, e2-e4 legal by the rules); the
+    hold (accepted, no letter `m`, no blank at either end, e2-e4 legal by the rules); the
     ply counter goes from 18 to 19 -/
 example (blend : Blend) (tostr : Position → M Bytes) (st : UciState) :
     ∃ p q P', parseFen demoFen = .ok (.ok p) ∧ Spec.play (abs p) [⟨12, 28, none⟩] = some P' ∧
@@ -452,16 +452,14 @@ example (blend : Blend) (tostr : Position → M Bytes) (st : UciState) :
       abs q = P' ∧ Inv q ∧ OppSafe q ∧ q.ply = 19 := by
   have hchk : (match parseFen demoFen with
       | .ok (.ok p) =>
-        (Count.okVal (isUnderCheck p.board (p.side (whiteTurn p)) (p.side (!whiteTurn p)).king) == some false) &&
-          (Spec.play (abs p) [⟨12, 28, none⟩]).isSome && p.ply == 18
+        (Spec.play (abs p) [⟨12, 28, none⟩]).isSome && p.ply == 18
       | _ => false) = true := by decide +kernel
   split at hchk
   · rename_i p hp
     simp only [Bool.and_eq_true, beq_iff_eq] at hchk
-    obtain ⟨⟨h1, h2⟩, h3⟩ := hchk
-    have hS : OppSafe p := Count.okVal_eq_some h1
+    obtain ⟨h2, h3⟩ := hchk
     obtain ⟨P', hP⟩ := Option.isSome_iff_exists.mp h2
-    obtain ⟨q, g1, g2, g3, g4, g5⟩ := C07_position_fen legalLink_holds (ops := modelOps blend tostr) rfl rfl st hp hS
+    obtain ⟨q, g1, g2, g3, g4, g5⟩ := C07_position_fen legalLink_holds (ops := modelOps blend tostr) rfl rfl st hp
       (by decide +kernel) (PosCmd.ends_of_B (by decide +kernel)) (sms := [⟨12, 28, none⟩]) (by decide) hP
     refine ⟨p, q, P', hp, hP, g1, g2, g3, g4, ?_⟩
     rw [g5 (by rw [h3]; decide), h3]
